@@ -4,12 +4,25 @@ import VivModel.Model.RandomBlock
 import VivModel.Props.C02
 /-! C02, bit level — the random block is no longer a parameter.
 
-`Viv.Props.C02` is stated for every block function `blk` and `draw_range` there assumes the contract
+`Viv.Props.C02` is stated for every block function `blk`, and `draw_range` there assumes the contract
 "numerator < 2^53". Here the two external functions are modelled (`Model/Sha1.lean`: SHA-1 and `get_hash`;
 `Model/MT19937.lean`: numpy's legacy `RandomState(seed).random_sample`) and the contract is PROVED for the
 concrete block `Viv.RandomBlock.realBlk ks size p = numerator (getHash ks) size p`, for all seed strings,
-sizes and positions. The models are tied to hashlib / numpy by the correspondence harness (driver ops
-`hash`, `mt`, and `draw` with `rng 1`: the driver computes the block from the seed string alone). -/
+sizes and positions (`numerator_lt`, `draw_range_concrete`).
+
+Beyond the range: `mt19937_gen` (in-place, three loops) is proved to compute the defining linear recurrence
+of MT19937 (`gen_recurrence`); the generator's outputs and the block's entries get a closed form over the
+word sequence of the seed (`word_seed`, `word_recurrence`, `outputs_eq`, `numerator_eq`), hence the block is
+prefix-stable (`numerator_prefix_stable`) and a draw is a function of (seed string, position) only
+(`draw_value_concrete`). Known answers (FIPS 180 vectors, `init_genrand(5489)`, numpy's first double, one
+complete `get_draw` value from the seed-string components) are evaluated by the kernel (`decide +kernel`:
+plain kernel reduction, no `Lean.ofReduceBool`); the MT ones go through the closed form because unrolling the
+624-word array loops inside the kernel takes minutes.
+
+NOT proved (and not provable): that blocks of different seed strings are "unrelated" – a statistical
+property of SHA-1 / MT19937. That hashlib / numpy compute the modelled functions is established by the
+correspondence harness (driver ops `hash`, `sha`, `mt`, `mtw`, and `draw` after `rng 1`: the driver computes
+the block from the seed string alone), not by proof. -/
 namespace Viv.Props.C02Bits
 open Viv.Stream Viv.RandomBlock
 
@@ -249,6 +262,345 @@ theorem numerator_lt (sd size pos : Nat) : numerator sd size pos < 2 ^ 53 := by
   rw [Array.getElem!_eq_getD, Array.getD_eq_getD_getElem?] at h
   exact h
 
+/-- `omega` with the constants 624 and 397 spelled out -/
+local macro "omegaN" : tactic => `(tactic| ((try simp only [N, M] at *) <;> omega))
+
+/-! ### the regeneration computes the defining recurrence -/
+
+/-- iterations from `i` on leave the words below `i` alone -/
+theorem genLoop_below (f i : Nat) (key : Array Nat) (j : Nat) (hj : j < i) :
+    (genLoop f i key)[j]! = key[j]! := by
+  induction f generalizing i key with
+  | zero => rw [genLoop]
+  | succ f ih =>
+    rw [genLoop, ih (i + 1) _ (by omega), getElem!_set!]
+    have : ¬ (i = j ∧ j < key.size) := by omega
+    simp [this]
+
+/-- the loop invariant of `mt19937_gen`: started at `i` on `key` (words below `i` already new, from `i` on still old),
+the word written at `j ≥ i` is the twist of the old `key[j]`, the old `key[j+1]` (the NEW word 0 for the last one) and
+the word 397 ahead – old while `j + 397 < 624`, else the new word `j + 397 - 624`. -/
+theorem genLoop_spec (f i : Nat) (key : Array Nat) (hs : key.size = N) (hf : i + f = N) (j : Nat)
+    (hij : i ≤ j) (hj : j < N) :
+    (genLoop f i key)[j]! = twistWord key[j]!
+      (if j + 1 < N then key[j + 1]! else (genLoop f i key)[0]!)
+      (if j + M < N then key[j + M]! else (genLoop f i key)[j + M - N]!) := by
+  induction f generalizing i key with
+  | zero => omega
+  | succ f ih =>
+    have hN : N = 624 := rfl
+    have hM : M = 397 := rfl
+    rw [genLoop]
+    by_cases hji : j = i
+    · subst hji
+      -- the word written now; later iterations do not touch it, nor the new words it read
+      rw [genLoop_below f (j + 1) _ j (by omega), getElem!_set!]
+      simp only [hs, hj, and_self, if_true]
+      congr 1
+      · split
+        · rename_i h; rw [Nat.mod_eq_of_lt h]
+        · rename_i h
+          have h1 : (j + 1) % N = 0 := by omegaN
+          rw [h1, genLoop_below f (j + 1) _ 0 (by omega), getElem!_set!]
+          have : ¬ (j = 0 ∧ 0 < key.size) := by omega
+          simp [this]
+      · split
+        · rename_i h; rw [Nat.mod_eq_of_lt h]
+        · rename_i h
+          have h1 : (j + M) % N = j + M - N := by omegaN
+          rw [h1, genLoop_below f (j + 1) _ (j + M - N) (by omega), getElem!_set!]
+          have : ¬ (j = j + M - N ∧ j + M - N < key.size) := by omega
+          simp [this]
+    · have hs' : (key.set! i (twistWord key[i]! key[(i + 1) % N]! key[(i + M) % N]!)).size = N := by
+        rw [Array.set!_eq_setIfInBounds, Array.size_setIfInBounds]; exact hs
+      rw [ih (i + 1) _ hs' (by omega) (by omega)]
+      have e1 : ∀ v, (key.set! i v)[j]! = key[j]! := fun v => by
+        rw [getElem!_set!]; have : ¬ (i = j ∧ j < key.size) := by omega
+        simp [this]
+      have e2 : ∀ v, (key.set! i v)[j + 1]! = key[j + 1]! := fun v => by
+        rw [getElem!_set!]; have : ¬ (i = j + 1 ∧ j + 1 < key.size) := by omega
+        simp [this]
+      have e3 : ∀ v, (key.set! i v)[j + M]! = key[j + M]! := fun v => by
+        rw [getElem!_set!]; have : ¬ (i = j + M ∧ j + M < key.size) := by omega
+        simp [this]
+      rw [e1, e2, e3]
+
+/-- two consecutive blocks of the word sequence: the key, then the regenerated key -/
+def seq2 (key : Array Nat) (j : Nat) : Nat := if j < N then key[j]! else (gen key)[j - N]!
+
+/-- `mt19937_gen` computes the defining linear recurrence of MT19937 (Matsumoto–Nishimura 1998, (w, n, m, r) =
+(32, 624, 397, 31)): `x[k+624] = x[k+397] ⊕ ((x[k] upper | x[k+1] lower) · A)` over the old block followed by the new one. -/
+theorem gen_recurrence (key : Array Nat) (hs : key.size = N) (k : Nat) (hk : k < N) :
+    seq2 key (k + N) = twistWord (seq2 key k) (seq2 key (k + 1)) (seq2 key (k + M)) := by
+  have hN : N = 624 := rfl
+  have hM : M = 397 := rfl
+  have h0 : ¬ (k + N < N) := by omega
+  have h1 : k + N - N = k := by omega
+  have hg : gen key = genLoop N 0 key := rfl
+  simp only [seq2, h0, hk, if_false, if_true, h1]
+  rw [hg, genLoop_spec N 0 key hs (by omega) k (by omega) hk]
+  have e1 : (if k + 1 < N then key[k + 1]! else (genLoop N 0 key)[0]!) =
+      (if k + 1 < N then key[k + 1]! else (genLoop N 0 key)[k + 1 - N]!) := by
+    by_cases h : k + 1 < N
+    · simp only [h, if_true]
+    · have : k + 1 - N = 0 := by omega
+      simp only [h, if_false, this]
+  rw [e1]
+
+
+/-! ### the word sequence of a seed -/
+
+/-- the seeding recurrence as a function of the index: `x[0] = seed mod 2^32`,
+`x[i+1] = (1812433253 · (x[i] ⊕ x[i]≫30) + i + 1) mod 2^32` -/
+def seedWord (sd : Nat) : Nat → Nat
+  | 0 => sd % W
+  | i + 1 => seedNext (seedWord sd i) i
+
+/-- the seeding loop's running value `t` iterations after it held `s` at index `pos` -/
+def seedFrom (s pos : Nat) : Nat → Nat
+  | 0 => s
+  | t + 1 => seedFrom (seedNext s pos) (pos + 1) t
+
+theorem seedFrom_seedWord (sd i t : Nat) : seedFrom (seedWord sd i) i t = seedWord sd (i + t) := by
+  induction t generalizing i with
+  | zero => rfl
+  | succ t ih =>
+    have h := ih (i + 1)
+    rw [seedWord] at h
+    rw [seedFrom, h]
+    congr 1; omega
+
+theorem getElem!_of_size_le (a : Array Nat) (j : Nat) (h : a.size ≤ j) : a[j]! = 0 := by
+  simp [h]
+
+theorem seedLoop_getElem (f pos s : Nat) (key : Array Nat) (j : Nat) :
+    (seedLoop f pos s key)[j]! =
+      if j < key.size then key[j]! else if j < key.size + f then seedFrom s pos (j - key.size) else 0 := by
+  induction f generalizing pos s key with
+  | zero =>
+    rw [seedLoop]
+    by_cases h : j < key.size
+    · simp [h]
+    · simp [h]
+  | succ f ih =>
+    rw [seedLoop, ih, Array.size_push, getElem!_push]
+    by_cases h1 : j < key.size
+    · have : j < key.size + 1 := by omega
+      simp [h1, this]
+    · by_cases h2 : j = key.size
+      · subst h2
+        simp [seedFrom]
+      · have a1 : ¬ j < key.size + 1 := by omega
+        by_cases h3 : j < key.size + 1 + f
+        · have a2 : j < key.size + (f + 1) := by omega
+          have a3 : j - key.size = (j - (key.size + 1)) + 1 := by omega
+          simp only [h1, a1, h3, a2, if_true, if_false]
+          rw [a3, seedFrom]
+        · have a2 : ¬ j < key.size + (f + 1) := by omega
+          simp only [h1, a1, h3, a2, if_false]
+
+/-- `mt19937_seed` fills the key with the seeding recurrence -/
+theorem seed_key_getElem (sd j : Nat) (hj : j < N) : (seed sd).key[j]! = seedWord sd j := by
+  have hk : (seed sd).key = seedLoop N 0 (sd % W) (Array.emptyWithCapacity N) := rfl
+  have hz : (Array.emptyWithCapacity N : Array Nat).size = 0 := by simp
+  have h0 : seedWord sd 0 = sd % W := rfl
+  rw [hk, seedLoop_getElem, hz]
+  simp only [Nat.not_lt_zero, if_false, Nat.zero_add, hj, if_true, Nat.sub_zero]
+  rw [← h0, seedFrom_seedWord, Nat.zero_add]
+
+/-- the key after `b` regenerations -/
+def blockKey (sd : Nat) : Nat → Array Nat
+  | 0 => (seed sd).key
+  | b + 1 => gen (blockKey sd b)
+
+theorem blockKey_size (sd b : Nat) : (blockKey sd b).size = N := by
+  induction b with
+  | zero => exact (seed_wf sd).2
+  | succ b ih => rw [blockKey]; unfold gen; rw [genLoop_size]; exact ih
+
+/-- THE WORD SEQUENCE of seed `sd`: word `n` is word `n mod 624` of the key after `n / 624` regenerations.
+Words 0 … 623 are the seeding recurrence (`word_seed`), every later word is given by the linear recurrence
+(`word_recurrence`) – which is the definition of MT19937 seeded by `init_genrand`. -/
+def word (sd n : Nat) : Nat := (blockKey sd (n / N))[n % N]!
+
+theorem word_seed (sd n : Nat) (hn : n < N) : word sd n = seedWord sd n := by
+  unfold word
+  have h1 : n / N = 0 := Nat.div_eq_of_lt hn
+  rw [h1, Nat.mod_eq_of_lt hn, blockKey, seed_key_getElem sd n hn]
+
+theorem word_recurrence (sd n : Nat) :
+    word sd (n + N) = twistWord (word sd n) (word sd (n + 1)) (word sd (n + M)) := by
+  have hk : n % N < N := Nat.mod_lt _ (by decide)
+  have h := gen_recurrence (blockKey sd (n / N)) (blockKey_size _ _) (n % N) hk
+  have hg : gen (blockKey sd (n / N)) = blockKey sd (n / N + 1) := rfl
+  have hd : (n + N) / N = n / N + 1 := by omegaN
+  have hm : (n + N) % N = n % N := by omegaN
+  have c0 : ¬ (n % N + N < N) := by omega
+  have c1 : n % N + N - N = n % N := by omega
+  simp only [seq2, hg, c0, c1, hk, if_true, if_false] at h
+  unfold word
+  rw [hd, hm, h]
+  have e1 : (if n % N + 1 < N then (blockKey sd (n / N))[n % N + 1]! else (blockKey sd (n / N + 1))[n % N + 1 - N]!) =
+      (blockKey sd ((n + 1) / N))[(n + 1) % N]! := by
+    by_cases c : n % N + 1 < N
+    · have a : (n + 1) / N = n / N := by omegaN
+      have b : (n + 1) % N = n % N + 1 := by omegaN
+      simp only [c, if_true, a, b]
+    · have a : (n + 1) / N = n / N + 1 := by omegaN
+      have b : (n + 1) % N = n % N + 1 - N := by omegaN
+      simp only [c, if_false, a, b]
+  have e2 : (if n % N + M < N then (blockKey sd (n / N))[n % N + M]! else (blockKey sd (n / N + 1))[n % N + M - N]!) =
+      (blockKey sd ((n + M) / N))[(n + M) % N]! := by
+    by_cases c : n % N + M < N
+    · have a : (n + M) / N = n / N := by omegaN
+      have b : (n + M) % N = n % N + M := by omegaN
+      simp only [c, if_true, a, b]
+    · have a : (n + M) / N = n / N + 1 := by omegaN
+      have b : (n + M) % N = n % N + M - N := by omegaN
+      simp only [c, if_false, a, b]
+  rw [e1, e2]
+
+
+/-! ### the generator hands out the tempered word sequence -/
+
+/-- state of the generator of seed `sd` after `t` outputs: the key after `b` regenerations, `pos` words of it used -/
+def Reached (sd t : Nat) (s : State) : Prop := ∃ b, s.key = blockKey sd b ∧ s.pos ≤ N ∧ N * b + s.pos = N + t
+
+theorem reached_seed (sd : Nat) : Reached sd 0 (seed sd) := ⟨0, rfl, Nat.le_refl _, rfl⟩
+
+/-- `genrand_int32`: output number `t` (from 0) is the tempered word `624 + t` -/
+theorem nextU32_reached (sd t : Nat) (s : State) (h : Reached sd t s) :
+    (nextU32 s).1 = temper (word sd (N + t)) ∧ Reached sd (t + 1) (nextU32 s).2 := by
+  obtain ⟨b, hk, hp, ht⟩ := h
+  unfold nextU32
+  by_cases c : s.pos ≥ N
+  · have a : (N + t) / N = b + 1 := by omegaN
+    have a' : (N + t) % N = 0 := by omegaN
+    simp only [c, if_true, word, a, a', hk]
+    refine ⟨rfl, b + 1, rfl, by omegaN, by omegaN⟩
+  · have a : (N + t) / N = b := by omegaN
+    have a' : (N + t) % N = s.pos := by omegaN
+    simp only [c, if_false, word, a, a', hk]
+    refine ⟨trivial, b, rfl, by omegaN, by omegaN⟩
+
+/-- the first `n` outputs after `t` earlier ones -/
+theorem outputs_reached (sd : Nat) (n t : Nat) (s : State) (h : Reached sd t s) :
+    outputs n s = (List.range n).map (fun i => temper (word sd (N + t + i))) := by
+  induction n generalizing t s with
+  | zero => rfl
+  | succ n ih =>
+    have h1 := nextU32_reached sd t s h
+    rw [outputs]
+    simp only [h1.1, ih (t + 1) _ h1.2, List.range_succ_eq_map, List.map_cons, List.map_map]
+    congr 1
+    apply List.map_congr_left
+    intro i _
+    simp only [Function.comp]
+    congr 2; omega
+
+/-- CLOSED FORM of `genrand_int32`: the outputs of `RandomState(sd)` are the tempered words 624, 625, … -/
+theorem outputs_eq (sd n : Nat) :
+    outputs n (seed sd) = (List.range n).map (fun i => temper (word sd (N + i))) := by
+  rw [outputs_reached sd n 0 _ (reached_seed sd)]; rfl
+
+/-- double number `p` of the stream: outputs `2p` and `2p + 1` -/
+def doubleAt (sd p : Nat) : Nat := doubleNum (temper (word sd (N + 2 * p))) (temper (word sd (N + 2 * p + 1)))
+
+theorem nextDouble_reached (sd t : Nat) (s : State) (h : Reached sd t s) :
+    (nextDouble s).1 = doubleNum (temper (word sd (N + t))) (temper (word sd (N + t + 1))) ∧
+      Reached sd (t + 2) (nextDouble s).2 := by
+  have h1 := nextU32_reached sd t s h
+  have h2 := nextU32_reached sd (t + 1) _ h1.2
+  have e : nextDouble s = (doubleNum (nextU32 s).1 (nextU32 (nextU32 s).2).1, (nextU32 (nextU32 s).2).2) := rfl
+  rw [e]
+  exact ⟨by simp only [h1.1, h2.1]; rfl, h2.2⟩
+
+theorem sampleLoop_getElem (sd : Nat) (n q : Nat) (s : State) (out : Array Nat) (h : Reached sd (2 * q) s) (j : Nat) :
+    (sampleLoop n s out)[j]! =
+      if j < out.size then out[j]! else if j < out.size + n then doubleAt sd (q + (j - out.size)) else 0 := by
+  induction n generalizing q s out with
+  | zero =>
+    rw [sampleLoop]
+    by_cases c : j < out.size
+    · simp [c]
+    · simp [c]
+  | succ n ih =>
+    have h1 := nextDouble_reached sd (2 * q) s h
+    rw [sampleLoop, ih (q + 1) _ _ (by rw [Nat.mul_add]; exact h1.2), Array.size_push, getElem!_push, h1.1]
+    by_cases c1 : j < out.size
+    · have : j < out.size + 1 := by omega
+      simp [c1, this]
+    · by_cases c2 : j = out.size
+      · subst c2
+        simp [doubleAt]
+      · have a1 : ¬ j < out.size + 1 := by omega
+        by_cases c3 : j < out.size + 1 + n
+        · have a2 : j < out.size + (n + 1) := by omega
+          have a3 : q + 1 + (j - (out.size + 1)) = q + (j - out.size) := by omega
+          simp only [c1, a1, c3, a2, if_true, if_false, a3]
+        · have a2 : ¬ j < out.size + (n + 1) := by omega
+          simp only [c1, a1, c3, a2, if_false]
+
+/-- CLOSED FORM of the block: entry `p` of `RandomState(sd).random_sample(size)` is the double built from the
+tempered words `624 + 2p` and `624 + 2p + 1` of the seed's word sequence -/
+theorem numerator_eq (sd size p : Nat) (hp : p < size) : numerator sd size p = doubleAt sd p := by
+  unfold numerator block
+  have h := sampleLoop_getElem sd size 0 (seed sd) (Array.emptyWithCapacity size) (reached_seed sd) p
+  have hz : (Array.emptyWithCapacity size : Array Nat).size = 0 := by simp
+  rw [hz] at h
+  simp only [Nat.not_lt_zero, if_false, Nat.zero_add, hp, if_true, Nat.sub_zero] at h
+  rw [← h, Array.getElem!_eq_getD, Array.getD_eq_getD_getElem?]
+  rfl
+
+/-- the block is prefix-stable: a draw at a position does not depend on the block's size (so it does not matter how
+many draws `random_sample` is asked for, as long as the position is inside) -/
+theorem numerator_prefix_stable (sd size size' p : Nat) (hp : p < size) (hp' : p < size') :
+    numerator sd size p = numerator sd size' p := by
+  rw [numerator_eq sd size p hp, numerator_eq sd size' p hp']
+
+
+/-! ### known answers, evaluated by the kernel -/
+
+/-- the first 227 outputs only need the seeding recurrence: `x[624+n] = twist(x[n], x[n+1], x[n+397])` -/
+theorem word_first (sd n : Nat) (h : n + M < N) :
+    word sd (N + n) = twistWord (seedWord sd n) (seedWord sd (n + 1)) (seedWord sd (n + M)) := by
+  rw [Nat.add_comm N n, word_recurrence, word_seed sd n (by omegaN), word_seed sd (n + 1) (by omegaN),
+    word_seed sd (n + M) h]
+
+/-- `init_genrand(5489)` (the reference implementation's default seed): `mt[1]`, `mt[623]` -/
+theorem seed_5489_known : (seed 5489).key[0]! = 5489 ∧ (seed 5489).key[1]! = 1301868182 ∧
+    (seed 5489).key[623]! = 79981964 := by
+  rw [seed_key_getElem _ _ (by decide), seed_key_getElem _ _ (by decide), seed_key_getElem _ _ (by decide)]
+  decide +kernel
+
+/-- the first outputs of `genrand_int32` after `init_genrand(5489)`: 3499211612, 581869302, 3890346734
+(the published reference output of mt19937ar.c begins with these) -/
+theorem outputs_5489_known : outputs 3 (seed 5489) = [3499211612, 581869302, 3890346734] := by
+  rw [outputs_eq]
+  simp only [List.range_succ_eq_map, List.range_zero, List.map_cons, List.map_nil, Nat.add_zero]
+  rw [show N + (0 + 1) = N + 1 from rfl, show N + (0 + 1 + 1) = N + 2 from rfl,
+    ← Nat.add_zero N, word_first 5489 0 (by decide), word_first 5489 1 (by decide), word_first 5489 2 (by decide)]
+  decide +kernel
+
+/-- `np.random.RandomState(5489).random_sample(size)[0] = 7338378580900475 / 2^53` (0.8147236863931789), any size -/
+theorem numerator_5489_known (size : Nat) (h : 0 < size) : numerator 5489 size 0 = 7338378580900475 := by
+  rw [numerator_eq _ _ _ h]
+  unfold doubleAt
+  rw [show N + 2 * 0 = N + 0 from rfl, show N + 0 + 1 = N + 1 from rfl, word_first 5489 0 (by decide),
+    word_first 5489 1 (by decide)]
+  decide +kernel
+
+/-- every multiple of 2^-53 in [0, 1) is the value of some pair of outputs: the bound of `numerator_lt` is tight -/
+theorem doubleNum_surj (k : Nat) (h : k < 2 ^ 53) : ∃ a b, a < W ∧ b < W ∧ doubleNum a b = k := by
+  refine ⟨(k / 67108864) * 32, (k % 67108864) * 64, ?_, ?_, ?_⟩
+  · have : W = 4294967296 := rfl
+    omega
+  · have : W = 4294967296 := rfl
+    omega
+  · unfold doubleNum
+    rw [Nat.shiftRight_eq_div_pow, Nat.shiftRight_eq_div_pow]
+    omega
+
 end mt
 
 /-! ### the draws of a stream over the concrete block -/
@@ -260,6 +612,22 @@ theorem realBlk_lt (ks : String) (size p : Nat) : realBlk ks size p < 2 ^ 53 := 
 theorem draw_range_concrete (size : Nat) (pos : Sim → Option Nat) (ks : String) (req : List Sim)
     (out : List Draw) (h : getDraw realBlk size pos ks req = .ok out) : ∀ e ∈ out, e.2.2 < 2 ^ 53 :=
   Viv.Props.C02.draw_range realBlk size pos ks realBlk_lt req out h
+
+/-- over the concrete block a simulant's draw is a function of the seed string and of its position alone – not of the
+request (`Viv.Props.C02.getDraw_pointwise`), and not even of the block's size: it is the double built from the tempered
+words `624 + 2p`, `624 + 2p + 1` of the word sequence of `get_hash(seed string)`. -/
+theorem draw_value_concrete (size : Nat) (pos : Sim → Option Nat) (ks : String) (req : List Sim)
+    (out : List Draw) (h : getDraw realBlk size pos ks req = .ok out) :
+    ∀ e ∈ out, e.2.1 < size → e.2.2 = doubleAt (Viv.Sha1.getHash ks) e.2.1 := by
+  intro e he hlt
+  have hd := (Viv.Props.C02.getDraw_mem realBlk size pos ks req out h e he).2
+  unfold Viv.Props.C02.drawOf at hd
+  cases hp : pos e.1 with
+  | none => simp [hp] at hd
+  | some p =>
+    simp only [hp, Option.map_some, Option.some.injEq] at hd
+    rw [← hd] at hlt ⊢
+    exact numerator_eq _ _ _ hlt
 
 /-- the same for the positional init stream (excluded from C02, but its draws are in range as well) -/
 theorem draw_range_concrete_init (size : Nat) (ks : String) (req : List Sim) (out : List Draw)
@@ -284,5 +652,63 @@ theorem getDraw_memo (size : Nat) (pos : Sim → Option Nat) (ks : String) (req 
     getDraw (memoBlk (blockOf ks size)) size pos ks req = getDraw realBlk size pos ks req :=
   getDraw_congr_blk _ _ size pos ks
     (fun _ => by simp only [memoBlk, realBlk, blockOf, Viv.MT19937.numerator]) req
+
+/-! ### known answers of the hash and of the whole chain, evaluated by the kernel -/
+section kat
+open Viv.Stream Viv.RandomBlock
+open Viv.Sha1
+
+/-- FIPS 180 test vectors and the padding boundary (55 bytes: one chunk, 56 bytes: two), a non-ASCII key -/
+theorem sha1_abc : sha1 "abc" = 0xa9993e364706816aba3e25717850c26c9cd0d89d := by decide +kernel
+
+theorem sha1_empty : sha1 "" = 0xda39a3ee5e6b4b0d3255bfef95601890afd80709 := by decide +kernel
+
+theorem sha1_two_chunks : sha1 "abcdbcdecdefdefgefghfghighijhijkijkljklmklmnlmnomnopnopq" =
+    0x84983e441c3bd26ebaae4aa1f95129e5e54670f1 := by decide +kernel
+
+theorem sha1_padding_boundary :
+    sha1 (String.ofList (List.replicate 55 'a')) = 0xc1c8bbdc22796e28c0e15163d20899b65621d65a ∧
+    sha1 (String.ofList (List.replicate 56 'a')) = 0xc2db330f6083854c99d4b5bfb6e8f29f201be699 ∧
+    (pad (List.replicate 55 97)).length = 64 ∧ (pad (List.replicate 56 97)).length = 128 := by decide +kernel
+
+theorem sha1_utf8 : utf8Bytes "é€😀" = [0xc3, 0xa9, 0xe2, 0x82, 0xac, 0xf0, 0x9f, 0x98, 0x80] ∧
+    sha1 "é€😀" = 0xc18ebd62bacc0aac83670707d9204486ec605731 := by decide +kernel
+
+/-- `get_hash("dp_2020-01-01 00:00:00_None_0") == 382894730` -/
+theorem getHash_known : getHash "dp_2020-01-01 00:00:00_None_0" = 382894730 := by decide +kernel
+
+/-- position 0 of the block of a seed string, spelled out down to the seeding recurrence -/
+theorem realBlk_first (ks : String) (size : Nat) (h : 0 < size) :
+    realBlk ks size 0 =
+      Viv.MT19937.doubleNum
+        (Viv.MT19937.temper (Viv.MT19937.twistWord (seedWord (getHash ks) 0) (seedWord (getHash ks) 1)
+          (seedWord (getHash ks) 397)))
+        (Viv.MT19937.temper (Viv.MT19937.twistWord (seedWord (getHash ks) 1) (seedWord (getHash ks) 2)
+          (seedWord (getHash ks) 398))) := by
+  unfold realBlk
+  rw [numerator_eq _ _ _ h]
+  unfold doubleAt
+  rw [show Viv.MT19937.N + 2 * 0 = Viv.MT19937.N + 0 from rfl,
+    show Viv.MT19937.N + 0 + 1 = Viv.MT19937.N + 1 from rfl,
+    word_first _ 0 (by decide), word_first _ 1 (by decide)]
+  rfl
+
+/-- END TO END, by the kernel: decision point "dp", clock 0, no additional key, seed 0 ⇒ seed string ⇒ SHA-1 ⇒
+mod 2^32−1 ⇒ `mt19937_seed` ⇒ twist ⇒ tempering ⇒ the first double of the block, whatever the block's size:
+`RandomnessStream("dp", lambda: 0, 0, …).get_draw(…)` reads 4320964812480132 / 2^53 at position 0. -/
+theorem realBlk_known (size : Nat) (h : 0 < size) :
+    realBlk (joinKey "dp" "0" "None" "0") size 0 = 4320964812480132 := by
+  rw [realBlk_first _ _ h]
+  decide +kernel
+
+/-- … and one clock tick later it reads another number. (An instance: that blocks of different seed strings are
+"unrelated" is a statistical property of SHA-1 / MT19937 and not a theorem here.) -/
+theorem realBlk_next_time_known (size : Nat) (h : 0 < size) :
+    realBlk (joinKey "dp" "1" "None" "0") size 0 = 1933818757770324 ∧
+    realBlk (joinKey "dp" "1" "None" "0") size 0 ≠ realBlk (joinKey "dp" "0" "None" "0") size 0 := by
+  rw [realBlk_first _ _ h, realBlk_first _ _ h]
+  decide +kernel
+
+end kat
 
 end Viv.Props.C02Bits
